@@ -10,9 +10,9 @@ RULE = ("arbitrary byte strings (uniform bytes; JSON-alphabet-biased bytes; muta
 ASSUMPTIONS = ["absence of invalid memory accesses in the compiled C is observed through ASan/UBSan on the sampled inputs only (supporting evidence, not a theorem)"]
 LEVEL_TEXT = ("Theorems (all bytes, flags, depth limits, histories): every call of the tokener model terminates with exactly one of the three outcomes, "
               "the end position is within the given length, the level stack never exceeds the limit, the redo loop never runs out of its fixed fuel from "
-              "well-formed states; reset restores the level stack of a new parser.  Memory safety of the compiled code is a runtime fact: the model proves "
+              "well-formed states; reset_is_new: for all inputs and all prior states a reset parser gives the same value, status and end position as a new one (the fields reset leaves alone are proved dead).  Memory safety of the compiled code is a runtime fact: the model proves "
               "index discipline, ASan/UBSan runs of the differential correspondence are supporting evidence.")
-LEVEL_NOTE = "Partial: memory safety, leaks and reads-only-given-bytes are runtime facts observed under ASan on sampled inputs; reset_is_new proved for the level stack, evaluated on examples for the dead fields."
+LEVEL_NOTE = "Partial: memory safety, leaks and reads-only-given-bytes are runtime facts observed under ASan on sampled inputs (the model proves index discipline and totality); tie to the C code by sampled differential execution."
 
 ALPH = b'{}[]:,"\\/ \t\n\r0123456789-+.eEtrufalsn\'*IiNaTF'
 
